@@ -412,6 +412,14 @@ def _asserts(ctx, run):
             if (f.name, msg) in ASSERT_SPECIAL:
                 ASSERT_SPECIAL[(f.name, msg)](ctx, run, f, bid, i, msg, key)
                 continue
+            # the same assertion spelt differently (a macro for the bound): recognised by what it compares
+            cond_, lab_ = ivl.assert_condition(f, bid)
+            if cond_ is not None:
+                o_ = atoms.Operand(f, cond_)
+                sig = (f.name, frozenset(o_.locals | {x.split(".")[-1] for x in o_.fields}))
+                if sig in ASSERT_SPECIAL_SIG:
+                    ASSERT_SPECIAL_SIG[sig](ctx, run, f, bid, i, msg, key)
+                    continue
             if not _cond_reads_param(f, bid):
                 run.violation("RF-ASSERT", key, "assert (%s) in %s() can fail for values the function's own guards admit"
                               % (msg, f.name), ex.loc(f, i))
@@ -504,6 +512,11 @@ def _xds_default(ctx, run, f, bid, i, msg, key):
 ASSERT_SPECIAL = {
     ("_vbi_cache_put_page", "death_count < N_ELEMENTS (death_row)"): _death_row_capacity,
     ("xds_separator", '!"reached"'): _xds_default,
+}
+
+
+ASSERT_SPECIAL_SIG = {
+    ("_vbi_cache_put_page", frozenset({"death_count"})): _death_row_capacity,
 }
 
 
